@@ -60,6 +60,27 @@ Theorem c09_parent_based_follows_parent : forall root psc t,
 Proof. exact parent_based_follows. Qed.
 Print Assumptions c09_parent_based_follows_parent.
 
+(** ParentBased(root, options...) for ALL option lists (any number, any order, repeated): every delegate is
+    the sampler of the LAST option naming it, the default (AlwaysSample for sampled parents, NeverSample
+    for unsampled ones) if none does; with c09_parent_based_dispatch this fixes every decision. *)
+Theorem c09_parent_based_options : forall root opts,
+  let tagged := map opt_tag opts in
+  parent_based_with root opts =
+  SParent root (effective 1 tagged SAlways) (effective 2 tagged SNever)
+               (effective 3 tagged SAlways) (effective 4 tagged SNever).
+Proof. exact parent_based_with_spec. Qed.
+Print Assumptions c09_parent_based_options.
+
+(** OTEL_TRACES_SAMPLER / OTEL_TRACES_SAMPLER_ARG, for ALL values of the variable (any bytes, or unset) and every
+    outcome of parsing the argument (unset, unparsable, any bit pattern): the provider's sampler is a
+    composition of the SDK's own samplers, and whenever the configuration is rejected (unknown sampler name,
+    unparsable, negative or > 1 ratio) every root span is sampled. *)
+Theorem c09_env_sampler : forall raw arg,
+  stock (provider_sampler raw arg) = true /\
+  (env_error raw arg = true -> forall t, dec (should_sample (provider_sampler raw arg) zero_sc t) = RecordAndSample).
+Proof. exact env_sampler_total. Qed.
+Print Assumptions c09_env_sampler.
+
 (** One Start, any sampler, any generator answer, any parent (flags a byte), new
     root or not: the span id is the generator's; the trace id is the parent's if it
     has one, else the generator's; sampled flag <=> RecordAndSample, the other flag
@@ -203,4 +224,13 @@ Example ex_stock :
   stock_ids ex_words 8 rinit =
   Some ([1;0;0;0;0; 0;0;0;0;0;0;0; 1;1;1;1], [1;1;1;1;1;1;1;1], {| rk := 6; rval := 65793; rpos := 2 |}) /\
   stock_ids ex_words 1 rinit = None.
+Proof. vm_compute. auto. Qed.
+
+Example ex_options :
+  parent_based_with SNever [OLocalSampled SNever; ORemoteSampled (SCustom RecordOnly None); OLocalSampled (SRatio HALF); ORemoteSampled SNever]
+  = SParent SNever SNever SNever (SRatio HALF) SNever /\
+  provider_sampler (Some (str " ParentBased_TraceIdRatio ")) (Some None) = parent_based (SRatio ONE_BITS) /\
+  env_error (Some (str "traceidratio")) (Some (Some (2 ^ 63 + HALF))) = true /\
+  provider_sampler (Some (str "traceidratio")) (Some (Some HALF)) = SRatio HALF /\
+  provider_sampler (Some (str "jaeger_remote")) None = parent_based SAlways.
 Proof. vm_compute. auto. Qed.
